@@ -23,6 +23,7 @@ KINDS = [
     ('null', 'nop', None),
     ('unknown', 'nope', [1]),
     ('nobind', 'add', [1]),
+    ('nobind0', 'add', None),
     ('perr', 'perr', None),
     ('boom', 'boom', [5]),
 ]
